@@ -185,3 +185,15 @@ PROPS["C13"] = {
     "outside": "two keys; clusters (the resolve path of a cluster is covered by C14 / C04: it does not quiesce, recorded there); resolutions that pick the old value",
     "assumptions": ["environment shims", "op ids come from the logical clock (distinct)"],
 }
+
+PROPS["C05"] = {
+    "level": "model_checking",
+    "harnesses": [
+        {"name": "c05_rejoin_incremental", "fn": "c05_rejoin", "params": {"quick": {"ops": 2, "full": 0}, "thorough": {"ops": 3, "full": 0}}, "budget_s": {"quick": 900, "thorough": 7200}},
+        {"name": "c05_rejoin_full", "fn": "c05_rejoin", "params": {"quick": {"ops": 2, "full": 1}, "thorough": {"ops": 3, "full": 1}}, "budget_s": {"quick": 900, "thorough": 7200}},
+    ],
+    "bounds": {"quick": "primary + one secondary with a common replicated history (database d, keys a, b); the secondary leaves; 2 operations on the primary from {set a v, set new key v, remove a, remove new key, create-db e (arbiter), increment b} with symbolic values (<= 3 printable chars, spaces and digits included) while the primary's real replication loop writes the op-log; then the catch-up list of get_pendding_opps_since (incremental: since = Oplog::last_op_time at departure; full: since = 0) is fed line by line through the joiner's process_request; databases and live keys, values byte for byte, versions, token and strategy of new databases are compared",
+               "thorough": "3 operations"},
+    "outside": "writes accepted by the primary during the synchronisation; several rotated op-log files (C12); restart of the primary between departure and return (C16); both nodes share one data directory in the model (the joiner's own op-log is not read)",
+    "assumptions": ["environment shims", "the joiner's last operation time equals the primary's newest record at departure"],
+}
